@@ -1,7 +1,5 @@
 package parse
 
-import "fmt"
-
 // parseExpr parses an expression.
 func (t *Tree) parseExpr() (Expr, error) {
 	expr, err := t.parseBinaryExpr(0)
@@ -195,7 +193,7 @@ func (t *Tree) parseRightTestOperand(prev *NameExpr) (*TestExpr, error) {
 		}
 		return &TestExpr{r}, nil
 	default:
-		return nil, fmt.Errorf(`Expected name or function, got "%v"`, right)
+		return nil, newUnexpectedExprError(right, "name or function")
 	}
 }
 
